@@ -13,15 +13,15 @@ Open Scope N_scope.
 
 Definition chk_read (name : string) (args : list (string * pv)) (req : request) (spec : list N -> res pv)
                     (d : list N) : bool :=
-  exch_eqb (one_exchange name args (RBytes (0 :: d))) req (spec d) && is_read_cmd req.
+  exch_ok name args (RBytes (0 :: d)) req (spec d) && is_read_cmd req.
 
-Lemma read_answer name args req spec dom s d :
+Lemma read_answer name args req spec dom s d : is_supported name = true ->
   forallb (chk_read name args req spec) dom = true -> List.In d dom ->
   snd (bmc_handle s req) = RBytes (0 :: d) ->
   exists r, call name args s = (r, s) /\ same r (spec d).
 Proof.
-  intros T Hd B. pose proof (table1 _ dom T d Hd) as C. unfold chk_read in C.
-  apply andb_true_iff in C as [E R]. apply exch_eqb_eq in E as (r' & v' & E & Q & V).
+  intros Sn T Hd B. pose proof (table1 _ dom T d Hd) as C. unfold chk_read in C.
+  apply andb_true_iff in C as [E R]. apply (exch_ok_eq _ _ _ _ _ Sn) in E. apply exch_eqb_eq in E as (r' & v' & E & Q & V).
   apply request_eqb_eq in Q. subst r'. exists v'. split; [| exact V].
   exact (read_pure name args s _ req v' E R B).
 Qed.
